@@ -5,6 +5,7 @@ import `Props/C03.lean` for the model's theorems do not depend on the generated 
 -/
 import ZepidVerif.Props.C03
 import ZepidVerif.Lemmas.TmleFitBridge
+import ZepidVerif.Gen.Xfit
 set_option linter.unusedSectionVars false
 set_option linter.unusedVariables false
 namespace ZV.P03
@@ -73,5 +74,19 @@ theorem tmle_fit_generated_useMiss [Transc F] (σ lg ppf : F → F) (alpha e1 e2
           (fun r => gTotal true (g0W r) (m0W r)) m1W m0W qaw :=
   ⟨by simpa [gTotal] using tmle_fit_binary_useMiss σ lg ppf alpha e1 e2 mini maxi l g1W g0W m1W m0W qaw,
    by simpa [gTotal] using tmle_fit_continuous_useMiss σ lg ppf alpha e1 e2 mini maxi l g1W g0W m1W m0W qaw⟩
+
+/-- **Cross-fit TMLE.**  `crossfit.targeting_step`, regenerated on every run (`Gen/Xfit.lean`), computes for a row of
+    a split — with the fluctuation coefficients fitted on that split — exactly the model's clever covariates and
+    targeted predictions: so the score-equation and range theorems of this file, stated for a row list and a pair of
+    coefficients, are theorems about each split of the cross-fit classes. -/
+theorem xfit_targeting_generated [Transc F] (σ lg : F → F) (e1 e2 : F) (r : TRow F) :
+    xfit_h1w (ind r.a) r.g1 = h1 r ∧ xfit_h0w (ind r.a) r.g0 = h0 r ∧ xfit_haw (h1 r) (h0 r) = haw r ∧
+    xfit_py_o (ind r.a) r.q1 r.q0 = qa r ∧
+    xfit_ystar1 σ lg e1 r.q1 r.g1 = qstar1 σ lg e1 r ∧
+    xfit_ystar0 σ lg e2 r.q0 r.g0 = qstar0 σ lg e2 r ∧
+    xfit_ystara σ lg e1 e2 (h1 r) (h0 r) (qa r) = qstarA σ lg e1 e2 r := by
+  refine ⟨rfl, rfl, rfl, ?_, rfl, rfl, rfl⟩
+  simp only [xfit_py_o, qa]
+  ring
 
 end ZV.P03
